@@ -273,7 +273,14 @@ impl Expr {
                 lhs.get_output_type(&rhs, op, flags)
                     .with_context(|| format!("invalid operation: {} {} {}", lhs, op.symbol(), rhs))
             }
-            Expr::UnaryMinus(val) | Expr::UnaryNot(val) => val.for_type(flags),
+            Expr::UnaryMinus(val) => {
+                let ty = val.for_type(flags)?;
+                if !ty.is_numeric(false) {
+                    bail!("cannot negate a value of type {ty}")
+                }
+                Ok(ty)
+            }
+            Expr::UnaryNot(val) => val.for_type(flags),
             Expr::Callable(CallableContents::Standard { function, .. }) => {
                 let return_type = function.return_type();
 
